@@ -21,6 +21,10 @@ def check_self(spec):
             S = Atoms.load(os.path.join(REPO, spec['file']))
             P = Atoms.load(os.path.join(REPO, spec['patfile']))
         case = dict(structure=S, cell=np.asarray(S.cell))
+        # the linker file carries bonds which the CIF structure does not have: a replacement pattern WITH terms must add them (property C06),
+        # so the no-op claim is checked with the bare pattern (elements + coordinates); the terms it would add are checked in C06
+        with quiet():
+            P = Atoms(elements=list(P.elements), positions=np.array(P.positions))
         sp, rp = P, P.copy()
     else:
         case = repl.planted(spec['cell'], spec['pair'], spec['copies'], spec['seed'])
@@ -39,7 +43,7 @@ def check_self(spec):
                            angles=[(0, 1, 2)] if n >= 3 else [], angle_types=[0] if n >= 3 else [], angle_type_coeffs=["cosine 9 # P"] if n >= 3 else [],
                            pair_coeffs=["lj 1 1 # %s" % e for e in dict.fromkeys(sp.elements)])
     try:
-        res, num = repl.do_replace(case, sp, rp, seed=spec.get('rng', 0))
+        res, num = repl.do_replace(case, sp, rp, seed=spec.get('rng', 0), **({'atol': spec['atol']} if spec.get('atol') else {}))
     except Exception as e:
         return "raised %r" % (e,)
     if len(res.positions) != len(S.positions):
@@ -130,8 +134,10 @@ def run(rec, tier, seed):
             if msg:
                 rec.fail('selfrepl', 'reversible-atol', "%s on %r" % (msg, spec), spec, 'C08/A-B-A')
     if tier == 'thorough':
-        for f, pf in (('tests/uio66/uio66.cif', 'tests/uio66/uio66-linker.cml'), ('tests/uio66/uio66-triclinic.cif', 'tests/uio66/uio66-linker.cml')):
-            spec = dict(file=f, patfile=pf)
+        # the linker in the triclinic file differs slightly from the linker file: it is found at atol = 0.2 only (as in the repository's own test)
+        for f, pf, atol in (('tests/uio66/uio66.cif', 'tests/uio66/uio66-linker.cml', None), ('tests/uio66/uio66-triclinic.cif', 'tests/uio66/uio66-linker.cml', 0.2),
+                            ('tests/uio66/uio66-triclinic.lmpdat', 'tests/uio66/uio66-linker.cml', 0.2)):
+            spec = dict(file=f, patfile=pf, atol=atol)
             msg = check_self(spec)
             rec.case(f, group='mof')
             if msg:
